@@ -57,11 +57,13 @@ fn spec_for(prop: &str, _tier: Tier) -> Option<Spec> {
 			.require("cut_during_open", 1)
 			.require("cut_during_drop", 1)
 			.require("layouts", 6)
+			.budget(60, 900)
 			.assume("the fault injector's try_io boundaries are dense enough to stand for 'between any two file operations' (DESIGN section 0)")
 			.assume("single client thread; no tree reader is held"),
 		Mode::C03 => Spec::new("C03", "fault_enumeration", &format!("{}Same images as C02 but judged against the durability lower bound: m >= number of commits whose WAL record was written before the last successful flush_logs (fdatasync) preceding the crash instant.", common))
 			.require("images", 100)
 			.require("images_with_synced_lower_bound", 30)
+			.budget(35, 600)
 			.assume("crash part of C03 (the clean-shutdown part is decided by the stepping engine in the same check)"),
 		Mode::C12 => Spec::new("C12", "fault_enumeration", &format!("{}The harness binary interposes fsync/fdatasync/msync/ftruncate/unlink/read/write, keeps a durable shadow of every file (content at its last sync) and builds power-loss images: durable content + a subset of the differing 4 KiB pages (none, all, each page alone, all but one, random subsets) + a prefix of the unsynced log tail (record boundaries +-1, random). Recovery must give S_m with synced <= m <= issued. In addition two ordering rules are evaluated on the real syscalls of every un-faulted run: R1 a log is not read for enactment while bytes appended to it were never synced; R2 when a log is truncated or unlinked no table/index/ref-count byte differs from its last synced content.", common))
 			.require("power_images", 200)
@@ -70,6 +72,7 @@ fn spec_for(prop: &str, _tier: Tier) -> Option<Spec> {
 			.require("r1_checks", 10)
 			.require("r2_checks", 10)
 			.require("sync_events", 50)
+			.budget(60, 900)
 			.assume("directory operations (create, unlink, size change) are atomic and immediately durable; the metadata file is durable once written")
 			.assume("the first 16 KiB of index files (statistics, deliberately unsynchronised) are excluded from page tearing and from R2"),
 		Mode::C13 => Spec::new("C13", "fault_enumeration", &format!("{}Base image: tables hold S_j, 1-4 log files hold later records that were never applied. Mutations of the log files: truncation at every offset (small logs) or sampled offsets, single-bit flips at every header byte and sampled payload bytes, multi-byte overwrites, appended garbage / a valid-looking BEGIN, duplicated / swapped / deleted / zero-length / sub-header-length log files, a stale log of an earlier generation. Open must not panic and must give S_m with j <= m <= (commits before the first touched record).", common))
@@ -87,7 +90,8 @@ fn spec_for(prop: &str, _tier: Tier) -> Option<Spec> {
 			.require("fault_in_enact", 10)
 			.require("fault_in_flush", 5)
 			.require("fault_in_clean", 5)
-			.require("fault_in_open", 5),
+			.require("fault_in_open", 5)
+			.budget(60, 900),
 	})
 }
 
